@@ -32,7 +32,7 @@ struct Shared {
         }
         for (auto& d : plan.at("docs").a) for (int w = 0; w < 2; ++w) {
             std::unique_ptr<SourceHolder> h(new SourceHolder);
-            if (!makeSource(*owner, w ? "wrapper" : "parsed", d.s, SrcFault(), *h)) { err = "parse: " + h->err; return false; }
+            if (!makeSource(*owner, w ? (plan.boolean("wrapper_lazy") ? "wrapper-lazy" : "wrapper") : "parsed", d.s, SrcFault(), *h)) { err = "parse: " + h->err; return false; }
             sources.push_back(std::move(h));
         }
         return true;
@@ -121,7 +121,7 @@ struct C07 : public Driver {
         // every shared object is used by at least two tasks with identical inputs: tasks come in twins
         Json tasks = Json::array();
         for (int i = 0; i < (nt + 1) / 2; ++i) { Json jobs = Json::array(); int nj = (int)gs.range(1, 2); for (int k = 0; k < nj; ++k) { Json j = Json::object(); j["doc"] = (int)gs.below(nd); j["sheet"] = (int)gs.below(ns); j["wrapper"] = gs.chance(1, 3); jobs.push(j); } tasks.push(jobs); tasks.push(jobs); }
-        p["tasks"] = tasks;
+        p["tasks"] = tasks; p["wrapper_lazy"] = run % 3 == 1;     // the Xerces wrapper created with (threadSafe, !buildWrapper): documented as thread-safe too
         Json sc = Json::object(); unsigned k = (unsigned)gs.below(10);
         if (k == 0) sc["strategy"] = "sequential";
         else if (k < 5) { sc["strategy"] = "random"; static const std::vector<int> dens = { 4, 32, 256, 2048 }; sc["den"] = gs.pick(dens); }
